@@ -196,6 +196,24 @@ func genPayload(t *verifsim.Tape, d *spec.Design, m *spec.Method) any {
 		}
 		o := gen.GenOpts{Loc: loc, AvoidZero: f.HasDef && !f.Required, NonEmpty: loc != gen.LocBody}
 		obj[f.Name] = gen.GenValid(t, d, f, o)
+		if mv, ok := obj[f.Name].(*gen.MapVal); ok && loc == gen.LocQuery {
+			// a map in the query string travels as name[key]=value with the key written as it is (the recorded
+			// closing-bracket finding is one consequence): keys that turn into one another under query
+			// unescaping ("+" and " ", "%41" and "A") are kept out, they would make two entries one
+			seen := map[string]bool{}
+			for i, k := range mv.K {
+				ks, isStr := k.(string)
+				if !isStr {
+					continue
+				}
+				ks = strings.NewReplacer("+", "-", "%", "_").Replace(ks)
+				for seen[ks] {
+					ks += "x"
+				}
+				seen[ks] = true
+				mv.K[i] = ks
+			}
+		}
 		if sv, ok := obj[f.Name].(string); ok && isCatchAll(m, f.Name) {
 			obj[f.Name] = catchAllValue(sv)
 		} else if ok && loc == gen.LocPath && hasCatchAll(m) {
